@@ -11,6 +11,7 @@ CONSTANTS
   Buffered = FALSE
   Gaps = "all"
   DropExit = FALSE
+  FlushOnErr = TRUE
   KeepData = TRUE
   ExternalProg <- NoExternal
   Emit = TRUE
